@@ -644,7 +644,8 @@ SliceStep(st, op) ==
                  THEN SR([both(Upd(st.js, n, ZeroElem(st.k))) EXCEPT !.done = TRUE], "value", Undef)
                                                                       \* reflect.Value.SetLen on an unaddressable slice, thrown as a string; the element was already zeroed
             ELSE IF field THEN SR(both(SubSeq(st.js, 1, n - 1)), "", ElemJS(st.js[n]))
-            ELSE SR([st EXCEPT !.js = SubSeq(st.js, 1, n - 1), !.done = TRUE], "", ElemJS(st.js[n]))
+            ELSE \* by value: 15.4.4.6 deletes the last element (the shared Go element is reset to zero), then only the script's length shrinks
+                 SR([st EXCEPT !.go = Upd(st.go, n, ZeroElem(st.k)), !.js = SubSeq(st.js, 1, n - 1), !.done = TRUE], "", ElemJS(st.js[n]))
       [] op.op = "jssetlen" ->
             IF op.n = n THEN SR(st, "", IntV(op.n))
             ELSE IF op.n < n THEN
